@@ -56,6 +56,10 @@ type FS struct {
 	OpenCount   map[string]int
 	OpenedLog   []string
 	DoubleClose int
+
+	// Hook, when set, is called at the start of every Open and Read: under a scheduler the disk is a
+	// place where the caller can lose the processor to another task.
+	Hook func(site string)
 }
 
 func New(files map[string][]byte, faults []Fault, short int, rng *rand.Rand) *FS {
@@ -63,6 +67,9 @@ func New(files map[string][]byte, faults []Fault, short int, rng *rand.Rand) *FS
 }
 
 func (f *FS) Open(name string) (fs.File, error) {
+	if f.Hook != nil {
+		f.Hook("fs.open")
+	}
 	f.Opens++
 	f.OpenCount[name]++
 	if len(f.OpenedLog) < 64 {
@@ -145,6 +152,9 @@ func (x *file) Stat() (fs.FileInfo, error) { return info{x.name, int64(len(x.dat
 
 func (x *file) Read(p []byte) (int, error) {
 	f := x.fs
+	if f.Hook != nil {
+		f.Hook("fs.read")
+	}
 	f.Reads++
 	if x.closed {
 		f.Fired["read_after_close"]++
